@@ -70,22 +70,31 @@ impl CaoLangAllocator {
         #[cfg(feature = "verif-hooks")]
         let verif_seq = crate::verif::alloc_request(self, l);
         let s = l.size() + l.align();
-        let allocated = s + self.allocated.fetch_add(s, Ordering::Relaxed);
-        if allocated > self.limit.load(Ordering::Relaxed) {
-            #[cfg(feature = "verif-hooks")]
-            crate::verif::alloc_failed(self, verif_seq, l);
-            return Err(AllocError::OutOfMemory);
-        }
-        if allocated > self.next_gc.load(Ordering::Relaxed) {
-            self.next_gc.store(allocated * 2, Ordering::Relaxed);
+        let limit = self.limit.load(Ordering::Relaxed);
+        let mut allocated = s + self.allocated.load(Ordering::Relaxed);
+        if (allocated > limit || allocated > self.next_gc.load(Ordering::Relaxed))
+            && !self.runtime.is_null()
+        {
+            // reclaim garbage when the threshold is crossed, and always before giving up: the
+            // request only fails if what is still reachable plus the request exceeds the limit
             unsafe {
                 (*self.runtime).gc();
             }
             debug!(
                 "GC done. Allocated before: {allocated}. Allocated now: {}",
-                self.allocated.load(Ordering::Relaxed)
+                s + self.allocated.load(Ordering::Relaxed)
             );
+            allocated = s + self.allocated.load(Ordering::Relaxed);
+            self.next_gc
+                .store(allocated.saturating_mul(2), Ordering::Relaxed);
         }
+        if allocated > limit {
+            // nothing has been charged for the failed request
+            #[cfg(feature = "verif-hooks")]
+            crate::verif::alloc_failed(self, verif_seq, l);
+            return Err(AllocError::OutOfMemory);
+        }
+        self.allocated.fetch_add(s, Ordering::Relaxed);
         #[cfg(feature = "verif-hooks")]
         if !self.runtime.is_null() && crate::verif::force_gc_now(verif_seq) {
             (*self.runtime).gc();
